@@ -90,7 +90,18 @@ impl<'a> ExpressionEvaluator<'a> {
         self.program().expect_next_token(Token::RightParen)?;
         self.program()
             .push_function_call_onto_stack_and_goto_it(function_name, bindings)?;
-        let value = self.evaluate_expression()?;
+        let result = self.evaluate_expression();
+        if let Err(mut err) = result {
+            // The frame must not outlive the call: at a breakpoint the stack is kept
+            // across immediate statements, and a leaked frame would shadow the
+            // program's variables after CONT. Record where the error happened (inside
+            // the function body) before unwinding back to the call site.
+            self.program().populate_error_location(&mut err);
+            self.program()
+                .pop_function_call_off_stack_and_return_from_it();
+            return Err(err);
+        }
+        let value = result?;
         self.program()
             .pop_function_call_off_stack_and_return_from_it();
 
